@@ -623,3 +623,32 @@ class Frags:
                 return n
 
         return ast.unparse(ast.fix_missing_locations(T().visit(clone(node))))
+
+
+def positive_ifs(fn):
+    """Copy of `fn` in which every two-armed `if not X: A else: B` (statement or expression) is written
+    `if X: B else: A`: which arm comes first is not semantics."""
+
+    class T(ast.NodeTransformer):
+        def visit_If(self, n):
+            self.generic_visit(n)
+            if isinstance(n.test, ast.UnaryOp) and isinstance(n.test.op, ast.Not) and n.orelse and not (len(n.orelse) == 1 and isinstance(n.orelse[0], ast.If)):
+                n.test, n.body, n.orelse = n.test.operand, n.orelse, n.body
+            return n
+
+        def visit_IfExp(self, n):
+            self.generic_visit(n)
+            if isinstance(n.test, ast.UnaryOp) and isinstance(n.test.op, ast.Not):
+                n.test, n.body, n.orelse = n.test.operand, n.orelse, n.body
+            return n
+
+    new = T().visit(clone(fn))
+    ast.fix_missing_locations(new)
+    for node in ast.walk(new):
+        for child in ast.iter_child_nodes(node):
+            child._parent = node
+    new._parent = getattr(fn, "_parent", None)
+    for a in ("_qualname", "_module", "_class"):
+        if hasattr(fn, a):
+            setattr(new, a, getattr(fn, a))
+    return new
